@@ -765,7 +765,11 @@ matrix_subscr(matrix* self, PyObject* args)
   /* handle normal subscripts (two integers) separately */
 #if PY_MAJOR_VERSION >= 3
   if (PyLong_Check(argI) && PyLong_Check(argJ)) {
-    int i = PyLong_AS_LONG(argI), j = PyLong_AS_LONG(argJ);
+    int_t i = PyLong_AsSsize_t(argI), j = PyLong_AsSsize_t(argJ);
+    if ((i == -1 || j == -1) && PyErr_Occurred()) {
+      PyErr_Clear();
+      PY_ERR(PyExc_IndexError, "index out of range");
+    }
 #else
   if (PyInt_Check(argI) && PyInt_Check(argJ)) {
     int i = PyInt_AS_LONG(argI), j = PyInt_AS_LONG(argJ);
